@@ -815,6 +815,71 @@ def asm_listing(sim: RiscvSimulation) -> str:
     return f"ok {b01(addrs_ok)} {';'.join(toks) if toks else '.'} | {mem_dump(back)}"
 
 
+def deep_state(obj, depth=0, seen=None):
+    """Canonical deep image of an object graph (every attribute, recursively), for comparing two runs beyond the
+    fields of the protocol snapshot. Wall-clock fields are skipped."""
+    if seen is None:
+        seen = set()
+    if depth > 12:
+        return "..."
+    if obj is None or isinstance(obj, (bool, int, str, float, bytes)):
+        return obj
+    try:
+        import fixedint
+        if isinstance(obj, fixedint.base.FixedInt):
+            return ("fx", type(obj).__name__, int(obj))
+    except Exception:
+        pass
+    if id(obj) in seen:
+        return "<cycle>"
+    if isinstance(obj, (list, tuple)):
+        seen = seen | {id(obj)}
+        return [deep_state(x, depth + 1, seen) for x in obj]
+    if isinstance(obj, dict):
+        seen = seen | {id(obj)}
+        return sorted(((repr(k), deep_state(v, depth + 1, seen)) for k, v in obj.items()), key=lambda kv: kv[0])
+    if isinstance(obj, (set, frozenset)):
+        return sorted(repr(x) for x in obj)
+    if isinstance(obj, range):
+        return ("range", obj.start, obj.stop, obj.step)
+    if isinstance(obj, type) or callable(obj):
+        return ("callable", getattr(obj, "__qualname__", repr(type(obj))))
+    d = getattr(obj, "__dict__", None)
+    if d is None:
+        return ("obj", type(obj).__name__, repr(obj)[:80])
+    seen = seen | {id(obj)}
+    out = [("<class>", type(obj).__name__)]
+    for k in sorted(d):
+        if k in ("_start", "_execution_time_s"):
+            continue
+        out.append((k, deep_state(d[k], depth + 1, seen)))
+    return out
+
+
+def global_fingerprint() -> str:
+    """Image of the module- and class-level tables of the code under test that no API call may change."""
+    from architecture_simulator.isa.toy.toy_micro_program import MicroProgram
+    from architecture_simulator.isa.toy import toy_instructions as ti
+    from architecture_simulator.isa.riscv.riscv_parser import RiscvParser
+    from architecture_simulator.isa.toy.toy_parser import ToyParser
+    from architecture_simulator.settings.settings import Settings
+    parts = [
+        sorted((k.__name__, v) for k, v in MicroProgram._instr_mp_mapping.items()),
+        sorted((k.__name__, list(v)) for k, v in MicroProgram._instr_bool_list_mapping.items()),
+        list(MicroProgram.second_half_micro_program), list(MicroProgram._signal_names),
+        sorted(rvi.instruction_map), sorted(ti.instruction_map),
+        [list(getattr(RiscvParser, a)) for a in ("_reg_reg_reg_mnemonics", "_normal_i_type_mnemonics", "_mem_i_type_mnemonics", "_b_type_mnemonics",
+                                                  "_s_type_mnemonics", "_u_type_mnemonics", "_csr_mnemonics", "_csr_i_mnemonics", "_reg_numbers", "_directives", "_type_directives")],
+        sorted(RiscvParser._reg_mapping.items()),
+        [list(ToyParser._address_mnemonics), list(ToyParser._no_address_mnemonics)],
+        deep_state({k: v for k, v in Settings._settings.items()}),
+    ]
+    return repr(parts)
+
+
+GLOBAL_BASELINE = global_fingerprint()      # taken when the harness imports the code, before any API call
+
+
 def run_lines(lines: list[str]) -> list[str]:
     impl = Impl()
     return [impl.run(l) for l in lines]
